@@ -10,9 +10,11 @@ replace github.com/gobuffalo/pop/v6 => github.com/ory/pop/v6 v6.2.1-0.2024112111
 
 require (
 	github.com/gofrs/uuid v4.4.0+incompatible
+	github.com/mattn/go-sqlite3 v1.14.24
 	github.com/ory/keto v0.0.0
 	github.com/ory/keto/proto v0.13.0-alpha.0
 	github.com/sirupsen/logrus v1.9.3
+	google.golang.org/grpc v1.71.1
 )
 
 require (
@@ -98,7 +100,6 @@ require (
 	github.com/mailru/easyjson v0.9.0 // indirect
 	github.com/mattn/go-colorable v0.1.14 // indirect
 	github.com/mattn/go-isatty v0.0.20 // indirect
-	github.com/mattn/go-sqlite3 v1.14.24 // indirect
 	github.com/microcosm-cc/bluemonday v1.0.27 // indirect
 	github.com/mitchellh/copystructure v1.2.0 // indirect
 	github.com/mitchellh/reflectwalk v1.0.2 // indirect
@@ -171,7 +172,6 @@ require (
 	golang.org/x/text v0.24.0 // indirect
 	google.golang.org/genproto/googleapis/api v0.0.0-20250313205543-e70fdf4c4cb4 // indirect
 	google.golang.org/genproto/googleapis/rpc v0.0.0-20250404141209-ee84b53bf3d0 // indirect
-	google.golang.org/grpc v1.71.1 // indirect
 	google.golang.org/protobuf v1.36.6 // indirect
 	gopkg.in/yaml.v2 v2.4.0 // indirect
 	gopkg.in/yaml.v3 v3.0.1 // indirect
